@@ -15,7 +15,7 @@ plan = {
   "short_read": 7 | None,    # every raw read returns at most this many bytes (legal)
   "faults": [ {"kind": "write_enospc", "at": 3}, ... ]   # at = index of the raw call of that class in this step
 }
-kinds: open_enoent open_eacces open_emfile open_enospc | write_enospc write_eio | read_eio | close_eio | crash
+kinds: open_enoent open_eacces open_emfile open_enospc | write_enospc write_eio | read_eio | close_eio | rename_eio | crash
 """
 
 from __future__ import annotations
@@ -43,8 +43,8 @@ class SimFS:
     def __init__(self):
         self.files = {}          # path -> bytearray
         self.fired = []          # faults that actually fired in the current step
-        self.counts = {"open": 0, "write": 0, "read": 0, "close": 0}
-        self.totals = {"open": 0, "write": 0, "read": 0, "close": 0, "bytes_written": 0, "bytes_read": 0}
+        self.counts = {"open": 0, "write": 0, "read": 0, "close": 0, "rename": 0}
+        self.totals = {"open": 0, "write": 0, "read": 0, "close": 0, "rename": 0, "bytes_written": 0, "bytes_read": 0}
         self.plan = {}
         self.dead = False        # after a crash: every raw write is discarded
         self.touched = set()     # paths written/truncated in the current step
@@ -58,7 +58,7 @@ class SimFS:
     def begin_step(self, plan=None):
         self.plan = plan or {}
         self.fired = []
-        self.counts = {"open": 0, "write": 0, "read": 0, "close": 0}
+        self.counts = {"open": 0, "write": 0, "read": 0, "close": 0, "rename": 0}
         self.dead = False
         self.touched = set()
         self.opened = []
@@ -121,6 +121,9 @@ class SimFS:
             raise FileNotFoundError(errno.ENOENT, "sim: no such file or directory", src)
         if self.dead:
             return
+        f = self._fault("rename", ("rename_eio",))
+        if f is not None:
+            raise OSError(errno.EIO, "sim: rename_eio", dst)
         self.files[dst] = self.files.pop(src)
         self.touched.add(dst)
         self.touched.add(src)
@@ -409,6 +412,8 @@ def _install_os_seam():
         "open": builtins.open, "io_open": io.open, "os_open": os.open, "os_close": os.close, "os_replace": os.replace,
         "os_rename": os.rename, "os_remove": os.remove, "os_unlink": os.unlink, "os_stat": os.stat, "os_fsync": os.fsync,
         "exists": os.path.exists, "isfile": os.path.isfile, "getsize": os.path.getsize, "os_makedirs": os.makedirs,
+        "os_lstat": os.lstat, "isdir": os.path.isdir, "os_listdir": os.listdir, "os_access": os.access,
+        "os_chmod": os.chmod, "os_utime": os.utime, "os_mkdir": os.mkdir,
     })
 
     def fs_or_none():
@@ -480,6 +485,48 @@ def _install_os_seam():
             return None
         return _REAL["os_makedirs"](path, *a, **kw)
 
+    def os_lstat(path, **kw):
+        fs = fs_or_none()
+        if fs is not None and not isinstance(path, int) and _is_sim(path):
+            return fs.stat(path)
+        return _REAL["os_lstat"](path, **kw)
+
+    def isdir(path):
+        fs = fs_or_none()
+        if fs is not None and not isinstance(path, int) and _is_sim(path):
+            p = os.fspath(path)
+            return p.rstrip("/") + "/" == SIM_PREFIX
+        return _REAL["isdir"](path)
+
+    def listdir(path="."):
+        fs = fs_or_none()
+        if fs is not None and not isinstance(path, int) and _is_sim(path):
+            p = os.fspath(path).rstrip("/") + "/"
+            return sorted(k[len(p):] for k in fs.files if k.startswith(p) and "/" not in k[len(p):])
+        return _REAL["os_listdir"](path)
+
+    def access(path, mode, **kw):
+        fs = fs_or_none()
+        if fs is not None and not isinstance(path, int) and _is_sim(path):
+            p = os.fspath(path)
+            return p in fs.files or p.rstrip("/") + "/" == SIM_PREFIX
+        return _REAL["os_access"](path, mode, **kw)
+
+    def noop(name):
+        def f(path, *a, **kw):
+            fs = fs_or_none()
+            if fs is not None and not isinstance(path, int) and _is_sim(path):
+                return None
+            return _REAL[name](path, *a, **kw)
+        return f
+
+    os.lstat = os_lstat
+    os.path.isdir = isdir
+    os.listdir = listdir
+    os.access = access
+    os.chmod = noop("os_chmod")
+    os.utime = noop("os_utime")
+    os.mkdir = noop("os_mkdir")
     builtins.open = _aware_open
     io.open = _aware_open
     os.open = os_open
